@@ -4,7 +4,8 @@ from . import c09
 PROP = 'C11'
 PLANS = {
     'quick': [('GOPS', 'attackers', 5, 2), ('GOPS2', 'attackers', 5, 1)],
-    'thorough': [('GOPS', 'attackers', 6, 1), ('GOPS', 'attackers', 5, 2), ('GOPS2', 'attackers', 5, 2)],
+    'thorough': [('GOPS', 'attackers', 7, 1), ('GOPS', 'attackers', 6, 2), ('GOPS2', 'attackers', 6, 2),
+                 ('GOPS', 'attackers', 4, 2, 'plain', 'busy')],
 }
 
 
